@@ -22,8 +22,10 @@ for d in $DEMOS; do echo "== demo $d WITH change"; RUST_BACKTRACE=0 timeout 1200
 echo "DEMO_WITH_CHANGE_FAILS=$WITH"
 echo "== existing suite WITH change (demo moved aside)"
 mkdir -p /tmp/confirm/$ID.aside; for d in $DEMOS; do mv tests/$d.rs /tmp/confirm/$ID.aside/; done
-timeout 3000 cargo test --workspace --no-fail-fast --offline 2>&1 | grep -E "^test result|FAILED|failed" | tee /tmp/confirm/$ID.suite | tail -40
-if grep -qE "FAILED|[1-9][0-9]* failed" /tmp/confirm/$ID.suite; then echo "SUITE_PASSES_WITH_CHANGE=0"; else echo "SUITE_PASSES_WITH_CHANGE=1"; fi
+timeout 3000 cargo test --workspace --no-fail-fast --offline > /tmp/confirm/$ID.suite 2>&1
+SUITE_RC=$?
+grep -E "^test result" /tmp/confirm/$ID.suite | tail -40
+if [ $SUITE_RC -eq 0 ] && ! grep -qE "^test result: FAILED" /tmp/confirm/$ID.suite; then echo "SUITE_PASSES_WITH_CHANGE=1 ($(grep -cE '^test result: ok' /tmp/confirm/$ID.suite) test binaries ok, cargo exit 0)"; else echo "SUITE_PASSES_WITH_CHANGE=0 (cargo exit $SUITE_RC)"; fi
 for d in $DEMOS; do mv /tmp/confirm/$ID.aside/$d.rs tests/; done
 echo "== revert src"; git checkout -- src codegen 2>/dev/null; git checkout -- src
 WITHOUT=1
